@@ -188,9 +188,9 @@ Definition normalize_hostname (e : env) (amp : bool) (h : str) : res str :=
   let o := {| sort_query := true; strip_authentication := true; strip_trailing_slash := true; strip_index := true;
               strip_protocol_o := true; strip_irrelevant_subdomains := true; strip_fragment_o := FragExceptRouting;
               normalize_amp := amp; fix_common_mistakes := true; infer_redirection_o := true; n_quoted := false; lang_filter := false |} in
+  let* h := decode_punycode_hostname e h in
   let h := subdomain_strip o h in
-  let h := amp_prefix_strip o h in
-  decode_punycode_hostname e h.
+  Ok (amp_prefix_strip o h).
 
 Definition get_normalized_hostname (e : env) (url : str) (amp infer : bool) : res (option str) :=
   let* url := if infer then infer_redirection e url else Ok url in
